@@ -141,6 +141,8 @@ def run(tier, seed):
         tanh = rnd.choice([0.0, 0.0, 10.0, 1.0])
         pow2 = T in (0.25, 0.5, 1.0, 2.0, 4.0)
         c = float(rnd.choice([-4096, -17, 3, 1024, 2 ** 20])) if pow2 else None
+        if c is not None and not torch.equal((x + c) - c, x):
+            c = None            # the shift would not be exactly representable in float32: not comparable
         recs += real_records(x, mask, T, k, p, tanh, shift_c=c)
     fails, drifts, states, ended = validate_records("LogitsTrace", recs, INV_TRACE, "c10")
     viol = []
